@@ -6,6 +6,7 @@ use super::private::Sealed;
 use super::{ContainerPackCreator, InputReader, MaybeFileReader, PackRecipient};
 use crate::bases::*;
 use crate::verif_common::*;
+use crate::verif_common::hharness;
 use std::io::{Cursor, Read, Seek, SeekFrom, Write};
 use uuid::Uuid;
 
@@ -181,3 +182,4 @@ vharness! {
         kani::cover!(skip == 32 && t == 7, "shifted");
     }
 }
+
